@@ -289,10 +289,25 @@ def r3_numeric_key_order(repo=None, rid="C12.R3"):
     for name, f in m.methods(R).items():
         q = "%s.%s" % (R, name)
         keyvars = set()
+
+        def int_keyed_base(e):
+            """`<X>.keys()` where X is the result dictionary of one of the reader's own methods (keyed by Python integers since
+            the keys are parsed on the way in) or a dictionary built in this function - not the string-named groups of a file"""
+            for k in ast.walk(e):
+                if isinstance(k, ast.Call) and isinstance(k.func, ast.Attribute) and k.func.attr == "keys" and isinstance(k.func.value, ast.Name):
+                    defs = [a_.value for a_ in pyfront.walk_no_nested(f) if isinstance(a_, ast.Assign) and len(a_.targets) == 1
+                            and isinstance(a_.targets[0], ast.Name) and a_.targets[0].id == k.func.value.id]
+                    if defs and all(isinstance(d_, ast.Call) and ((pyfront.call_name(d_) or "").startswith("self.")
+                                    or (pyfront.call_name(d_) or "").split(".")[-1] in ("OrderedDict", "dict", "defaultdict")) for d_ in defs):
+                        continue
+                    return False
+                if isinstance(k, ast.Call) and isinstance(k.func, ast.Attribute) and k.func.attr == "keys" and not isinstance(k.func.value, ast.Name):
+                    return False
+            return True
         for n in pyfront.walk_no_nested(f):
             if isinstance(n, ast.Assign) and len(n.targets) == 1 and isinstance(n.targets[0], ast.Name):
                 src = ast.unparse(n.value)
-                if ".keys()" in src and not any(k in src for k in ("int(", "np.int64", "fromiter", "astype")):
+                if ".keys()" in src and not any(k in src for k in ("int(", "np.int64", "fromiter", "astype")) and not int_keyed_base(n.value):
                     keyvars.add(n.targets[0].id)
         for c in pyfront.walk_no_nested(f):
             if not isinstance(c, ast.Call):
@@ -448,6 +463,30 @@ def r5_recursive_shape(repo=None):
             r.violation(m.rel, ro.populate, norm(ast.unparse(c)), "stored strings are decoded as %r but h5py stores str as "
                         "UTF-8: a non-ASCII value fails to decode and is returned as raw bytes instead of the written string" % enc,
                         line=c.lineno)
+    # stored bytes need not be text: every decode sits in a try whose handler for UnicodeDecodeError keeps the bytes, otherwise
+    # one such value makes every read of its file (and every forward fill looking back through it) raise
+    pparents = {}
+    for n_ in ast.walk(pd):
+        for ch_ in ast.iter_child_nodes(n_):
+            pparents[ch_] = n_
+    for c in decs:
+        tr = pparents.get(c)
+        guarded = False
+        while tr is not None and not guarded:
+            if isinstance(tr, ast.Try) and any(c is x for st in tr.body for x in ast.walk(st)):
+                for h in tr.handlers:
+                    names = ["*"] if h.type is None else [pyfront.dotted(e) for e in (h.type.elts if isinstance(h.type, ast.Tuple) else [h.type])]
+                    if any(n_ in ("UnicodeDecodeError", "UnicodeError", "ValueError", "Exception", "*") for n_ in names) and not any(
+                            isinstance(x, ast.Raise) for x in ast.walk(h)):
+                        guarded = True
+            tr = pparents.get(tr)
+        if guarded:
+            r.ok("%s:%s %s `%s` (handler)" % (m.rel, c.lineno, ro.populate, norm(ast.unparse(c))), "a value that is not UTF-8 is kept as bytes")
+        else:
+            r.violation(m.rel, ro.populate, "%s outside try/except UnicodeDecodeError" % norm(ast.unparse(c)), "stored bytes that are "
+                        "not UTF-8 (which the writer accepts) make the decode raise: every read of that file and every forward "
+                        "fill that looks back through it fails, hiding the neighbouring samples as well; the scalar case keeps "
+                        "such bytes", line=c.lineno)
     # bytes -> str through numpy's unicode dtypes uses the ASCII codec: `<array of bytes>.astype(np.str_ / str / 'U')`
     for c in ast.walk(pd):
         if isinstance(c, ast.Call) and isinstance(c.func, ast.Attribute) and c.func.attr == "astype" and c.args:
@@ -595,10 +634,69 @@ def r6_list_edges(repo=None, rid="C12.R6"):
     return r
 
 
+def r7_indices_stay_exact(repo=None):
+    """Sample indices are unsigned 64-bit quantities that callers hold as Python or NumPy integers.  (a) In the reader's `read`
+    no arithmetic is done on a range parameter in the caller's type (`start += 1` on np.uint64(2**64-1) wraps to 0 and the main
+    pass then reads everything): an Add / Sub / augmented assignment has the parameter wrapped in int().  (b) The 'index'
+    column of read_flatdict is not left to a dtype-less np.array of Python integers (a mix below and at or above 2**63 has no
+    common NumPy integer type and silently becomes float64): on its definition chain there is a conversion to np.uint64."""
+    r = Rule("C12.R7", "sample indices stay exact integers in the reader (no arithmetic in the caller's type, no float64 promotion)")
+    ro = dmdroles.roles(repo)
+    m = ro.m
+    q = R + ".read"
+    f = ro.read_view.fn()
+    params = [a.arg for a in f.args.args if a.arg != "self"][:2]
+    n = 0
+    for x in ast.walk(f):
+        bad = None
+        if isinstance(x, ast.AugAssign) and isinstance(x.target, ast.Name) and x.target.id in params and isinstance(x.op, (ast.Add, ast.Sub)):
+            bad = x
+        elif isinstance(x, ast.BinOp) and isinstance(x.op, (ast.Add, ast.Sub)) and any(
+                isinstance(o, ast.Name) and o.id in params for o in (x.left, x.right)):
+            bad = x
+        elif isinstance(x, ast.BinOp) and isinstance(x.op, (ast.Add, ast.Sub)) and any(
+                isinstance(o, ast.Call) and pyfront.call_name(o) == "int" and len(o.args) == 1 and isinstance(o.args[0], ast.Name)
+                and o.args[0].id in params for o in (x.left, x.right)):
+            n += 1
+            r.ok("%s:%s %s `%s`" % (m.rel, x.lineno, q, norm(ast.unparse(x))), "arithmetic on int(<range parameter>)")
+        if bad is not None:
+            n += 1
+            r.violation(m.rel, q, norm(ast.unparse(bad)), "index arithmetic on a range parameter in the caller's own type: a NumPy "
+                        "integer at the maximum of its type wraps around (np.uint64(2**64-1) + 1 == 0), so a forward-fill read "
+                        "starting there returns every sample of the channel after the filled one", line=bad.lineno)
+    fq = R + ".read_flatdict"
+    if fq in m.functions:
+        ff = m.flat(fq).fn()
+        idx = [a for a in ast.walk(ff) if isinstance(a, ast.Assign) and isinstance(a.targets[0], ast.Subscript)
+               and pyfront.const(a.targets[0].slice) == "index"]
+        if len(idx) != 1:
+            raise AnalysisError("%s: store of the 'index' column not found exactly once (%d)" % (fq, len(idx)))
+        chain, work, seen = [], [idx[0].value], set()
+        while work:
+            e = work.pop()
+            chain.append(e)
+            for nm in {y.id for y in ast.walk(e) if isinstance(y, ast.Name)} - seen:
+                seen.add(nm)
+                work += [a.value for a in ast.walk(ff) if isinstance(a, ast.Assign) and any(isinstance(t, ast.Name) and t.id == nm for t in a.targets)]
+        conv = any("uint64" in ast.unparse(e) for e in chain)
+        n += 1
+        if conv:
+            r.ok("%s:%s %s 'index'" % (m.rel, idx[0].lineno, fq), "the index column passes a conversion to np.uint64 (for values at or above 2**63)")
+        else:
+            r.violation(m.rel, fq, norm(ast.unparse(idx[0])), "the 'index' column is a list of Python integers that a dtype-less np.array "
+                        "converts: values below and at or above 2**63 together have no common NumPy integer type and become "
+                        "float64 - all indices near 2**63 are returned rounded to values that were never written", line=idx[0].lineno)
+    if n < 2:
+        raise AnalysisError("%s: index arithmetic / index column not found (%d sites)" % (q, n))
+    r.guard(2)
+    return r
+
+
 def rules(repo=None):
     from . import c13
     return [lambda: r1_append_and_refuse(repo), lambda: r2_range_filter(repo), lambda: r3_numeric_key_order(repo),
-            lambda: c13.r1_exact_placement(repo, rid="C12.R4"), lambda: r5_recursive_shape(repo), lambda: r6_list_edges(repo)]
+            lambda: c13.r1_exact_placement(repo, rid="C12.R4"), lambda: r5_recursive_shape(repo), lambda: r6_list_edges(repo),
+            lambda: r7_indices_stay_exact(repo)]
 
 
 EXPLANATION = (
